@@ -13,7 +13,7 @@ from .. import core
 from ..core import SKIP
 
 ID = "C04"
-RULE = ("grammar-generated BED/BED6/narrowPeak/VCF/VCF-with-genotypes/SAM/GTF/FASTQ/two-line FASTA/BAM files (1-3 tables of 1-6 "
+RULE = ("grammar-generated BED/BED6/narrowPeak/VCF/VCF-with-genotypes/VCF-with-declared-INFO-keys/SAM/GTF/FASTQ/two-line FASTA/BAM files (1-3 tables of 1-6 "
         "records, unequal record lengths, non-canonical valid text: leading zeros, '+5', '1e3', CRLF, optional SAM tags, FASTQ "
         "'+name' lines, VCF sample columns) x random programs of selections (slice with step/negative bounds, boolean mask, int "
         "list with repeats and negatives, out-of-range -> IndexError), binary and n-ary np.concatenate, chunked read + "
@@ -23,7 +23,8 @@ RULE = ("grammar-generated BED/BED6/narrowPeak/VCF/VCF-with-genotypes/SAM/GTF/FA
         "d[[4,0,2,6]][1:] ...), then written / concatenated / replaced, LF and CRLF; on a table of equal-sized records of every format: "
         "integer-list reorderings of neighbours keeping first and last in place and repetitions whose lengths add up to the spanned "
         "range; tables are shared objects: a child slice is written first, then the PARENT is written/re-selected/replaced "
-        "(`seq`); columns are read (cached) before concatenations (`get`); "
+        "(`seq`); columns are read (cached) before concatenations (`get`); the table is written through ANOTHER buffer type than it "
+        "was read with (superclass writer: raw bytes; other writer: joined field texts; FASTQ/FASTA -> multi-line FASTA writer); "
         "observable = bytes written by bnp.open(out,'w').write(result). Non-trivial = program has >= 2 steps and the selection "
         "is a proper/re-ordered/repeated subset, or >= 1 replaced field")
 EXHAUSTIVE = {"quick": False, "thorough": False}
@@ -53,7 +54,9 @@ MANIFEST = {
             "end-to-end theorem passthrough_all_files: written bytes = the selected source lines, for every table and every "
             "program; the same for the k-line formats FASTQ / two-line FASTA (buildKLine_eq, build_kline_records, passthrough_kline). "
             "and for SAM (buildSam_eq, build_sam_records, passthrough_sam: variable tag columns, LF/CRLF) and BAM (build_bam_records, "
-            "passthrough_bam: block_size-prefixed records); crlf_last_column: the last column of every CRLF table is returned without its CR. Every constructed extractor is additionally validated per explored "
+            "passthrough_bam: block_size-prefixed records); crlf_last_column: the last column of every CRLF table is returned without its CR. The index semantics are pinned by list "
+            "notions (pyIndex_slice_take_drop, pyIndex_reverse, pyIndex_mask_filter, pyIndex_ints_none_iff, norm_spec ...) and "
+            "algebraic laws hold (select_select, touch_idempotent, program_none_iff, select_all_bytes; restOld_unsound). Every constructed extractor is additionally validated per explored "
             "input by a checker proved sound (invB_sound); the shipped record-end rule is refuted (buildOld_unsound). "
             "Correspondence: real bnp.open/read/index/concatenate/replace/write on generated files of ten formats vs the Lean "
             "model vs the Lean spec vs a Python source-lines oracle.",
@@ -114,6 +117,13 @@ FIELD_NAMES = {
     "bam": ["chromosome", "name", "flag", "position", "mapq", "cigar_op", "cigar_length", "sequence", "quality"],
     "gtf": ["chromosome", "source", "feature_type", "start", "stop", "score", "strand", "phase", "atributes"],
 }
+
+
+# writing through ANOTHER buffer type than the one the table was read with (LazyBNPDataClass.get_buffer decides: raw bytes when the
+# reader's class is a subclass of the writer's, joined field texts otherwise, from_data of the WRITER's class for FASTA)
+#   writer key -> (file suffix, buffer type name or None, format used to parse what was written, number of fields written)
+WRITERS = {"bed": (".bed", None, None, None), "bed6": (".bed", "Bed6Buffer", "bed", 3), "fasta": (".fa", None, "fasta2", 2)}
+WRITER_OF = {"bed6": "bed", "bed": "bed6", "fastq": "fasta", "fasta2": "fasta"}
 
 
 def _buffer_type(fmt):
@@ -420,7 +430,7 @@ def _set_op(c):
     """GTF is never read lazily: outside the extractor model -> implementation vs oracle only. (FASTQ / two-line FASTA
     buffers have no `concatenate`: their concatenations are eager and modelled by `Prog.evalTab`.)"""
     # replacements inside a program need the lazy table's overlay, which is C05's model: implementation vs oracle only here
-    c["op"] = "eager" if (c["fmt"] == "gtf" or _has_rep(c["prog"])) else "prog"
+    c["op"] = "eager" if (c["fmt"] == "gtf" or _has_rep(c["prog"]) or c.get("wfmt") == "fasta") else "prog"
     return c
 
 
@@ -533,6 +543,23 @@ def cases(tier, rng):
                     yield _set_op(dict(base, prog={"cat": [d0, {"get": {"sel": d0, "ix": {"slice": [1, 4, 1]}}, "fs": fs}]}))
                     yield _set_op(dict(base, prog={"seq": [g0, {"cat": [{"sel": d0, "ix": {"ints": [2, 0]}}, d0]}]}))
                     yield _set_op(dict(base, prog={"sel": {"cat": [g0, {"get": {"t": 0, "chunk": 60}, "fs": fs}]}, "ix": {"slice": [1, None, 2]}}))
+    # 0d. the table is written through ANOTHER buffer type than it was read with
+    for fmt, wf in WRITER_OF.items():
+        for eol in ("\n", "\r\n"):
+            base = make_case(rng, fmt, 0, 0, eol)
+            while len(base["recs"][0]) < 4:
+                base["recs"][0] = (base["recs"][0] + make_case(rng, fmt, 0, 0, eol)["recs"][0])[:4]
+            d0 = {"t": 0}
+            progs = [d0, {"sel": d0, "ix": {"slice": [None, None, -1]}}, {"sel": {"sel": d0, "ix": {"ints": [3, 1, 0]}}, "ix": {"slice": [1, None, 1]}},
+                     {"cat": [{"sel": d0, "ix": {"mask": [True, False, True, True]}}, d0]}, {"touch": {"sel": d0, "ix": {"slice": [1, 3, 1]}}}]
+            rep = FORMATS[fmt][3]
+            for pr in progs:
+                yield _set_op(dict(base, prog=pr, wfmt=wf))
+                n = _spec_len(pr, [len(t) for t in base["recs"]])
+                ks = [k for k in sorted(rep) if WRITERS[wf][3] is None or k < WRITERS[wf][3]]
+                if ks and n:
+                    k = rng.choice(ks)
+                    yield _set_op(dict(base, prog=pr, wfmt=wf, repl=[[k, rep[k], _new_values(rng, rep[k], n)]]))
     # 1. random programs
     for fmt in fmts:
         m = per if fmt not in ("gtf", "bam") else per // 3
@@ -698,7 +725,8 @@ def oracle(c):
     rs = _spec_eval(c["prog"], c["recs"])
     if rs is None:
         return {"err": "index"}
-    if not c["repl"] and not _has_cat(c["prog"]):
+    wf = c.get("wfmt")
+    if not c["repl"] and not _has_cat(c["prog"]) and (not wf or WRITERS[wf][2] is None):
         out = _header(c) + "".join(r["raw"] for r in rs)
         return {"out": out.encode("latin-1").hex() if c["fmt"] == "bam" else out}
     nF = FORMATS[c["fmt"]][2]
@@ -710,7 +738,7 @@ def oracle(c):
     for i, row in enumerate(base):
         for k, kind, vals in c["repl"]:
             row[k] = _fmt_new(kind, vals[i])
-        rows.append(row)
+        rows.append(row[:WRITERS[wf][3]] if (wf and WRITERS[wf][3]) else row)
     return {"fields": rows}
 
 
@@ -759,7 +787,9 @@ def agree(c, got, exp):
     if "fields" in exp:
         if not isinstance(got, dict) or "out" not in got:
             return False
-        return _parse_written(c, got["out"]) == exp["fields"]
+        pf = WRITERS[c["wfmt"]][2] if c.get("wfmt") else None
+        pc = dict(c, fmt=pf) if pf else c
+        return _parse_written(pc, got["out"]) == exp["fields"]
     return core.canon(got) == core.canon(exp)
 
 
@@ -868,7 +898,13 @@ def impl(c):
             if c["repl"]:
                 names = FIELD_NAMES[c["fmt"]]
                 t = replace(t, **{names[k]: _new_column(kind, vals) for k, kind, vals in c["repl"]})
-            with bnp.open(out, "w", buffer_type=bt) as w:
+            wbt = bt
+            if c.get("wfmt"):
+                out = os.path.join(d, "outw" + WRITERS[c["wfmt"]][0])
+                wname = WRITERS[c["wfmt"]][1]
+                import bionumpy.io.delimited_buffers as db
+                wbt = getattr(db, wname) if wname else None
+            with bnp.open(out, "w", buffer_type=wbt) as w:
                 w.write(t)
         except IndexError:
             return {"err": "index"}
@@ -931,8 +967,10 @@ def model_request(c):
         return {"op": "prog", "fmt": "bam", "hdr": hx(_header(c)), "prog": prog, "nF": 9, "repl": [], "cmp": "bytes",
                 "tables": [hx("".join(r["raw"] for r in t)) for t in tabs],
                 "recs": [[{"raw": hx(r["raw"]), "fields": []} for r in t] for t in tabs]}
+    wf = c.get("wfmt")
     return {"op": "prog", "fmt": c["fmt"], "hdr": _header(c), "prog": prog, "nF": FORMATS[c["fmt"]][2],
-            "cmp": "fields" if (c["repl"] or _has_cat(c["prog"])) else "bytes",
+            "join": bool(wf and WRITERS[wf][2] is not None),
+            "cmp": "fields" if (c["repl"] or _has_cat(c["prog"]) or (wf and WRITERS[wf][2] is not None)) else "bytes",
             "tables": ["".join(r["raw"] for r in t) for t in tabs], "recs": tabs,
             "repl": [[k, [_fmt_new(kind, v) for v in vals]] for k, kind, vals in c["repl"]]}
 
